@@ -42,7 +42,7 @@ func genC14(t *rapid.T) C14Case {
 	n := rapid.IntRange(1, 14).Draw(t, "nops")
 	for i := 0; i < n; i++ {
 		op := C14Op{}
-		switch k := kit.Uniform(t, 20, "opkind"); {
+		switch k := kit.Uniform(t, 24, "opkind"); {
 		case k < 5:
 			op.Op = "submit1"
 		case k < 11:
@@ -51,6 +51,12 @@ func genC14(t *rapid.T) C14Case {
 			op.Op = "lookup"
 		case k < 18:
 			op.Op = "mutret"
+		case k < 20:
+			op.Op = "partial"
+			op.IDSel = rapid.IntRange(0, 255).Draw(t, "subset")
+		case k < 22:
+			op.Op = "parents"
+			op.IDSel = rapid.IntRange(0, 7).Draw(t, "which")
 		default:
 			op.Op = "mine"
 		}
@@ -58,8 +64,12 @@ func genC14(t *rapid.T) C14Case {
 		case "submit1", "submit2":
 			ni := rapid.IntRange(0, 4).Draw(t, "nintents")
 			for j := 0; j < ni; j++ {
-				in := kit.GenIntent(t, []string{"pay", "pay", "pay", "sf", "form", "arb"}, 0)
+				in := kit.GenIntent(t, []string{"pay", "pay", "merge", "merge", "sf", "form", "arb"}, 0)
+				if in.Kind == "merge" {
+					in.To = in.Who
+				}
 				in.V2 = op.Op == "submit2"
+				in.Eph = kit.Chance(t, 55, "eph")
 				op.Intents = append(op.Intents, in)
 			}
 			if kit.Chance(t, 35, "knownroll") {
@@ -252,6 +262,9 @@ func runC14(c C14Case, cs *kit.CaseStats) error {
 				in.V2 = v2
 				if !v2 && (in.Kind == "arb" || in.Kind == "attest" || in.Kind == "foundation") {
 					in.Kind = "pay"
+				}
+				if in.Kind == "merge" {
+					in.Kind = map[bool]string{true: "v2merge", false: "v1merge"}[v2]
 				}
 				bb.Add(in)
 			}
@@ -469,6 +482,115 @@ func runC14(c C14Case, cs *kit.CaseStats) error {
 			}
 			if len(got) > 0 {
 				cs.Class("mutated-returned-v2")
+			}
+
+		case "partial":
+			// the pooled transactions with the requested leaf hashes, each once,
+			// nothing else; returned v2 values are the caller's own
+			var want []types.Hash256
+			wantSet := map[types.Hash256]bool{}
+			all := 0
+			for _, t := range before.v1 {
+				if op.IDSel>>(all%8)&1 == 1 {
+					want = append(want, t.MerkleLeafHash())
+					wantSet[t.MerkleLeafHash()] = true
+				}
+				all++
+			}
+			for _, t := range before.v2 {
+				if op.IDSel>>(all%8)&1 == 1 {
+					want = append(want, t.MerkleLeafHash())
+					wantSet[t.MerkleLeafHash()] = true
+				}
+				all++
+			}
+			want = append(want, types.HashBytes([]byte{byte(op.IDSel), byte(oi)})) // unknown hash
+			g1, g2 := node.CM.TransactionsForPartialBlock(want)
+			got := map[types.Hash256]int{}
+			for _, t := range g1 {
+				got[t.MerkleLeafHash()]++
+			}
+			for _, t := range g2 {
+				got[t.MerkleLeafHash()]++
+			}
+			for h, c := range got {
+				if !wantSet[h] || c != 1 {
+					return fmt.Errorf("%s: TransactionsForPartialBlock returned a transaction that was not asked for (or twice): %v x%d", where, h, c)
+				}
+			}
+			if len(got) != len(wantSet) {
+				return fmt.Errorf("%s: TransactionsForPartialBlock returned %d of the %d pooled transactions asked for", where, len(got), len(wantSet))
+			}
+			snap := encV2s(node.CM.V2PoolTransactions())
+			for i := range g2 {
+				mutateV2(&g2[i], oi)
+			}
+			if !sameEnc(snap, encV2s(node.CM.V2PoolTransactions())) {
+				return fmt.Errorf("%s: mutating v2 transactions returned by TransactionsForPartialBlock changed the pool", where)
+			}
+			if len(wantSet) > 0 {
+				cs.Class("partial-block-query")
+			}
+
+		case "parents":
+			// UnconfirmedParents of a pooled v1 transaction: exactly its pooled
+			// ancestors, creators before spenders
+			if len(before.v1) == 0 {
+				continue
+			}
+			creators := map[types.Hash256]types.TransactionID{}
+			for _, t := range before.v1 {
+				for i := range t.SiacoinOutputs {
+					creators[types.Hash256(t.SiacoinOutputID(i))] = t.ID()
+				}
+				for i := range t.SiafundOutputs {
+					creators[types.Hash256(t.SiafundOutputID(i))] = t.ID()
+				}
+				for i := range t.FileContracts {
+					creators[types.Hash256(t.FileContractID(i))] = t.ID()
+				}
+				for i := range t.SiafundInputs {
+					creators[types.Hash256(t.SiafundClaimOutputID(i))] = t.ID()
+				}
+			}
+			byID := map[types.TransactionID]types.Transaction{}
+			for _, t := range before.v1 {
+				byID[t.ID()] = t
+			}
+			for _, target := range before.v1 {
+				wantAnc := map[types.TransactionID]bool{}
+				var walk func(t types.Transaction)
+				walk = func(t types.Transaction) {
+					for _, id := range v1InputIDs(t) {
+						if c, ok := creators[id]; ok && !wantAnc[c] {
+							wantAnc[c] = true
+							walk(byID[c])
+						}
+					}
+				}
+				walk(target)
+				gotP := node.CM.UnconfirmedParents(target)
+				seen := map[types.TransactionID]bool{}
+				for i, pt := range gotP {
+					if !wantAnc[pt.ID()] || seen[pt.ID()] {
+						return fmt.Errorf("%s: UnconfirmedParents returned %v, which is not a pooled ancestor (or twice)", where, pt.ID())
+					}
+					for _, id := range v1InputIDs(pt) {
+						if c, ok := creators[id]; ok && !seen[c] {
+							return fmt.Errorf("%s: UnconfirmedParents[%d] = %v comes before its own parent %v", where, i, pt.ID(), c)
+						}
+					}
+					seen[pt.ID()] = true
+				}
+				if len(seen) != len(wantAnc) {
+					return fmt.Errorf("%s: UnconfirmedParents returned %d of %d pooled ancestors", where, len(seen), len(wantAnc))
+				}
+				if len(wantAnc) > 0 {
+					cs.Class("unconfirmed-parents-query")
+					if len(wantAnc) > 1 {
+						cs.Class("unconfirmed-parents>=2")
+					}
+				}
 			}
 
 		case "mine":
